@@ -199,7 +199,16 @@ pub fn run_held(ctx: &Ctx, out: &mut Outcome) {
         cfg.mix.reserve = 2;
         cfg.mix.insert += 10;
         cfg.mix.remove += 6;
-        cfg.nkeys = cfg.nkeys.min(24);
+        if rng.chance(1, 2) {
+            cfg.nkeys = cfg.nkeys.min(24);
+        } else {
+            // growth through several generations under held references
+            cfg.nkeys = *rng.pick(&[64u64, 128, 256]);
+            cfg.cap = *rng.pick(&[0usize, 1, 2, 8]);
+            cfg.mode = *rng.pick(&[crate::hashers::IDENTITY, crate::hashers::UNIFORM, crate::hashers::SPLITTING]);
+            cfg.mix.insert += 25;
+            cfg.focus_site = *rng.pick(&[0, fvf::WIN_TRANSFER_BETWEEN_BINS, fvf::WIN_TRANSFER_BEFORE_FORWARD, fvf::WIN_TRANSFER_AFTER_FORWARD, fvf::WIN_UNLINKED]);
+        }
         cfg.ops = rng.range(40, 120) as usize;
         let r = run_round(&cfg, rs);
         round += 1;
